@@ -62,6 +62,9 @@ impl SessionEngine {
             ..BuiltinToolConfig::default()
         };
         register_builtin_tools(&registry, builtin_config.clone());
+        // the configuration's `{ "env": NAME }` key sources are credentials from the start, not only after the
+        // first per-request resolution (loading registers them: rip_tools::secret_env_names)
+        let _ = crate::config::load_effective_config(&workspace_root);
 
         let checkpoint_hook = WorkspaceCheckpointHook::new(workspace_root.clone())
             .map_err(|err| format!("workspace checkpoint hook init failed: {err}"))?;
